@@ -67,6 +67,27 @@ class Parsers:
                                                           cfg.set_parser, cfg.holiday_parser)
         self.te, self.tpe, self.se, self.he = ex.time_extractor, ex.time_period_extractor, ex.set_extractor, ex.holiday_extractor
         self.dtpe = ex.date_time_period_extractor
+        self.variants = probe(self)
+
+
+PROBE_R = dt.datetime(2020, 1, 31, 14, 30, 0)
+
+
+def probe(P):
+    """Which variant of the four repaired spots does the tree follow?  Each is asked on the input of its witness theorem
+    (RTV/Props/C10Zh.lean): the pre-fix answer selects the model of the code as found, anything else is compared with the model
+    of the repaired code (`zt.*fixed` driver ops / inputs read the repaired way)."""
+    from recognizers_date_time.date_time.chinese.base_date_time_extractor import TimeResult
+    v = {}
+    x = guarded(lambda: P.tpp.get_short_left('10').hour)
+    v['short'] = 'prefix' if x == 0 else 'fixed'
+    x = guarded(lambda: P.tpp.build_span(TimeResult(13, -1, -1), TimeResult(13, -1, -1)))
+    v['span'] = 'prefix' if x == 'PT' else 'fixed'
+    x = guarded(lambda: show_r(P.dtpp.merge_date_and_time_periods('今天晚上8点到凌晨2点', PROBE_R)))
+    v['mdtp'] = 'prefix' if x.startswith('(2020-01-31T20,2020-01-31T02,PT6H)') else 'fixed'
+    x = guarded_h(lambda: P.hp._parse_holiday_regex_match('2019年圣诞节', PROBE_R).timex)
+    v['hol'] = 'prefix' if x == '0201-12-25' else 'fixed'
+    return v
 
 
 def desc_field(tp, extra):
@@ -152,6 +173,7 @@ def tp_cases(ctx, P, refs):
     from recognizers_date_time.date_time.chinese.timeperiod_extractor import TimePeriodType
     out = []
     tpp = P.tpp
+    tpop = 'zt.tp' if P.variants['span'] == 'prefix' else 'zt.tpfixed'
     for i, t in enumerate(tp_texts(ctx)):
         R = (refs + EDGE)[i % (len(refs) + len(EDGE))]
         for er in P.tpe.extract(t, R):
@@ -167,14 +189,18 @@ def tp_cases(ctx, P, refs):
                 lf = time_fields(P, le, R)
                 if lf is None:
                     continue
-                line = 'zt.tp\t%s\tF\t%s\t%s' % (ref_fields(R), lf, rf)
+                line = '%s\t%s\tF\t%s\t%s' % (tpop, ref_fields(R), lf, rf)
             else:
-                description = le[:-1] if regex.match(tpp.day_description_regex, le) else ''
+                dm = regex.match(tpp.day_description_regex, le)
+                if P.variants['short'] == 'prefix':
+                    description, number = (le[:-1] if dm else ''), le[-1]
+                else:
+                    description, number = (dm.group() if dm else ''), (le[dm.end():] if dm else le)
                 lb = tpp.low_bound_map.get(description)
-                hour = guarded(lambda: P.tp.match_to_value(le[-1]))
+                hour = guarded(lambda: P.tp.match_to_value(number))
                 if not isinstance(hour, int):
                     continue
-                line = 'zt.tp\t%s\tS\t%d\t-1\t-1\t%s\t%s' % (ref_fields(R), hour, '-' if lb is None else str(lb), rf)
+                line = '%s\t%s\tS\t%d\t-1\t-1\t%s\t%s' % (tpop, ref_fields(R), hour, '-' if lb is None else str(lb), rf)
             out.append((line, (lambda extra=extra, R=R: show_r(tpp.parse_time_period(extra, R))), 'parse_time_period(%r, %s)' % (er.text, R)))
     return out
 
@@ -228,7 +254,7 @@ def mdtp_cases(ctx, P, refs):
                 if pr1.value is None or pr2.value is None or not pr1.value.success or not pr2.value.success:
                     continue
                 bt, et = pr2.value.future_value
-                line = 'zt.mdtp\t%s\t%s\t%s\t%s\t%s\t%s' % (fmt_dt(pr1.value.future_value), fmt_dt(pr1.value.past_value), pr1.timex_str,
+                line = '%s\t%s\t%s\t%s\t%s\t%s\t%s' % ('zt.mdtp' if P.variants['mdtp'] == 'prefix' else 'zt.mdtpfixed', fmt_dt(pr1.value.future_value), fmt_dt(pr1.value.past_value), pr1.timex_str,
                                                          pr2.timex_str, fmt_dt(bt), fmt_dt(et))
                 out.append((line, (lambda t=t, R=R: show_r(p.merge_date_and_time_periods(t, R))), 'merge_date_and_time_periods(%r, %s)' % (t, R)))
     return out
@@ -480,18 +506,27 @@ def holiday_cases(ctx, P, refs):
                 if m is None or m.start() != 0 or m.end() != len(t):
                     continue
                 yn, yc, yr = m.group('year'), m.group('yearCJK'), m.group('yearrel')
+                fixed = P.variants['hol'] == 'fixed'
+                cj = 0
                 if yn:
                     kind, arg = 'D', str(int(yn))
                 elif yc:
-                    s = yc[:-1] if hp.config.get_swift_year(yc) == 0 else yc
+                    s = yc if fixed else (yc[:-1] if hp.config.get_swift_year(yc) == 0 else yc)
                     ers = iext.extract(s)
                     whole = int(npar.parse(ers[-1]).value) if ers and ers[-1].type == NC.SYS_NUM_INTEGER else 0
                     kind, arg = 'C', str(whole)
+                    for ch in s:                      # the digit-by-digit value, as __convert_year computes it
+                        cj *= 10
+                        e1 = iext.extract(ch)
+                        if e1 and e1[-1].type == NC.SYS_NUM_INTEGER:
+                            cj += int(npar.parse(e1[-1]).value)
                 elif yr:
                     kind, arg = 'R', str(hp.config.get_swift_year(yr))
                 else:
                     kind, arg = 'A', '0'
                 line = 'zt.hol\t%s\t%s\t%s\t%s' % (ref_fields(R), cps(m.group('holiday').lower()), kind, arg)
+                if fixed:
+                    line = 'zt.holfixed\t%s\t%s\t%s\t%s\t%d' % (ref_fields(R), cps(m.group('holiday').lower()), kind, arg, cj)
                 out.append((line, (lambda t=t, R=R: guarded_h(lambda: show(hp._parse_holiday_regex_match(t, R)))),
                             '_parse_holiday_regex_match(%r, %s)' % (t, R)))
     R = dt.datetime(2020, 1, 31)
@@ -520,7 +555,7 @@ def unit(ctx, P):
     model = common.driver([c[0] for c in cs])
     hist, shown = {}, {}
     for (line, _f, desc), a, b in zip(cs, impl, model):
-        op = line.split('\t')[0]
+        op = line.split('\t')[0].replace('fixed', '')
         hist[op] = hist.get(op, 0) + 1
         if a not in ('none', 'err:Other', 'raises', 'nokey'):
             ctx.nontriv(('zh2', desc))
@@ -533,6 +568,7 @@ def unit(ctx, P):
                            failing_input={'op': line, 'call': desc, 'implementation': a, 'model': b})
     for op, n in sorted(hist.items()):
         ctx.count('zh2-unit:' + op, n)
+    ctx.extra['zh2_variants'] = dict(P.variants)
     if cs:
         ctx.sample({'op': cs[len(cs) // 2][0], 'call': cs[len(cs) // 2][2], 'implementation': impl[len(cs) // 2]})
     witnesses(ctx, P)
